@@ -203,6 +203,7 @@ func (*TumblingWindow).checkAndTriggerWindows
   modifies *
   before extractWindowDataLocked fire-only-closed-windows: *tw.currentSlot.End <= watermarkTime
   ensures caught-up: tw.initialized && tw.currentSlot != nil ==> *tw.currentSlot.End > watermarkTime
+  ensures allowance-expired-windows-closed: old(tw.initialized) && old(tw.currentSlot) != nil ==> forallv(k, "", dom(tw.triggeredWindows, k) ==> watermarkTime < tw.triggeredWindows[k].closeTime)
   loop 1 invariant held(tw.mu) && wheld(tw.mu) && twInv(tw) && twNoStranded(tw)
   loop 2 invariant !hasData ==> forall(k, 0, $i, !(*tw.currentSlot.Start <= $s[k].Timestamp && $s[k].Timestamp < *tw.currentSlot.End))
 @*/
@@ -372,6 +373,7 @@ func (*SlidingWindow).checkAndTriggerWindows
   modifies *
   before triggerSpecificWindowLocked fire-only-closed-windows: *slotToTrigger.End <= watermarkTime
   ensures caught-up: sw.initialized && sw.currentSlot != nil ==> *sw.currentSlot.End > watermarkTime
+  ensures allowance-expired-windows-closed: old(sw.initialized) && old(sw.currentSlot) != nil ==> forallv(k, "", dom(sw.triggeredWindows, k) ==> watermarkTime < sw.triggeredWindows[k].closeTime)
   before triggerSpecificWindowLocked advanced-before-firing: sw.currentSlot != nil && *sw.currentSlot.Start == *slotToTrigger.Start + sw.slide
   loop 1 invariant held(sw.mu) && wheld(sw.mu) && swInv(sw)
 
